@@ -19,9 +19,30 @@ Definition regs_item (it : item) : list N :=
 
 Definition regs_items (its : list item) : list N := flat_map regs_item its.
 
+Definition pend_tgt (F : list N) (t : option N) : ptgt :=
+  match t with None => PN | Some x => PP (idx F x) end.
+
+Definition pend_body (F : list N) (b : tbody (option N)) : tbody ptgt :=
+  match b with
+  | TNone => TNone
+  | TStr bs => TStr bs
+  | TPrim k v => TPrim k v
+  | TCStr s => TCStr s
+  | TPtr k t => TPtr k (pend_tgt F t)
+  | TArrayNew hid rc tl thr tli count => TArrayNew hid rc tl thr tli count
+  | TConstArrayNew hid rc size => TConstArrayNew hid rc size
+  | TPointerNew pid ts => TPointerNew pid (map (pend_tgt F) ts)
+  | THolderRef k h => THolderRef k (pend_tgt F h)
+  | TVector bs => TVector bs
+  end.
+
+Definition pend_tok (F : list N) (t : tok (option N)) : tok ptgt :=
+  mkTok (t_vid t) (pend_body F (t_body t)).
+
 Definition pend_leaf (F : list N) (l : leaf) : pleaf :=
   match l with
   | LPtr s (Some t) => PPending s (idx F t)
+  | LVar key toks => PVar key (map (pend_tok F) toks)
   | _ => PL l
   end.
 
@@ -56,10 +77,51 @@ Proof.
   destruct bs; [unfold nlen; cbn; lia|]. rewrite nlen_rec. lia.
 Qed.
 
+Lemma nlen_enc_ptr F safe t : nlen (enc_ptr F safe t) = 8.
+Proof. unfold enc_ptr. now rewrite nlen_rec, nlen_le_encode. Qed.
+
+Lemma nlen_enc_ptrs F ts : nlen (enc_ptrs F ts) = 8 * nlen ts.
+Proof.
+  induction ts as [|t r IH]; cbn [enc_ptrs]; [reflexivity|].
+  rewrite nlen_app, nlen_enc_ptr, IH, nlen_cons. lia.
+Qed.
+
+Lemma nlen_w_cstr s : nlen (w_cstr s) = size_cstr s.
+Proof.
+  destruct s as [bs|]; cbn [w_cstr size_cstr]; [|reflexivity].
+  rewrite nlen_app, nlen_w_str. change (nlen (rec_bytes T_Byte [1])) with 5. reflexivity.
+Qed.
+
+Lemma nlen_u32 v : nlen (u32 v) = 8.
+Proof. unfold u32. now rewrite nlen_rec, nlen_le_encode. Qed.
+
+Lemma nlen_enc_tbody F b : nlen (enc_tbody F b) = size_body b.
+Proof.
+  destruct b as [|bs|k v|s|k x|hid rc tl thr tli count|hid rc size|pid ts|k [hid|]|bs]; cbn [enc_tbody size_body]; unfold enc_new;
+    rewrite ?nlen_app, ?nlen_w_str, ?nlen_w_cstr, ?nlen_enc_ptr, ?nlen_enc_ptrs, ?nlen_u32, ?nlen_rec, ?nlen_le_encode;
+    change (nlen [1]) with 1; change (nlen [0]) with 1; change (N.of_nat 4) with 4; change (N.of_nat 2) with 2;
+    try reflexivity; try lia.
+Qed.
+
+Lemma nlen_enc_tok F t : nlen (enc_tok F t) = 13 + size_body (t_body t).
+Proof.
+  unfold enc_tok. rewrite !nlen_app, !nlen_rec, nlen_le_encode, nlen_enc_tbody.
+  change (nlen [vtype (t_body t)]) with 1. change (N.of_nat 4) with 4. lia.
+Qed.
+
+Lemma nlen_enc_toks F ts : nlen (enc_toks F ts) = size_toks ts.
+Proof.
+  induction ts as [|t r IH]; cbn [enc_toks size_toks]; [reflexivity|].
+  rewrite nlen_app, nlen_enc_tok, IH. lia.
+Qed.
+
+Lemma nlen_w_key key : nlen (w_key key) = size_key key.
+Proof. destruct key as [k|]; cbn [w_key size_key]; [apply nlen_w_cstr|reflexivity]. Qed.
+
 Lemma nlen_enc_leaf F l : nlen (enc_leaf F l) = size_leaf l.
 Proof.
-  destruct l as [k v|bs|bs|s [t|]|id]; cbn [enc_leaf size_leaf];
-    rewrite ?nlen_w_str, ?nlen_rec, ?nlen_le_encode; reflexivity.
+  destruct l as [k v|bs|bs|s [t|]|id|key toks]; cbn [enc_leaf size_leaf];
+    rewrite ?nlen_app, ?nlen_w_key, ?nlen_enc_toks, ?nlen_w_str, ?nlen_rec, ?nlen_le_encode; reflexivity.
 Qed.
 
 Lemma nlen_enc_leaves F ls : nlen (enc_leaves F ls) = size_leaves ls.
@@ -85,10 +147,18 @@ Qed.
 Lemma ptag_small k : ptag k < 256 ^ 4.
 Proof. destruct k; vm_compute; reflexivity. Qed.
 
-Lemma size_leaf_pos l : 1 <= size_leaf l.
-Proof. destruct l as [k v|bs|bs|s t|id]; cbn [size_leaf]; unfold size_str; lia. Qed.
 
 (* ------------------------------------------------------------------- strings *)
+
+(* evaluates comparisons of numerals (the type dispatch of a script variable) *)
+Ltac eqb_lits :=
+  repeat match goal with
+         | |- context [N.eqb (Npos ?p) (Npos ?q)] =>
+             let r := eval vm_compute in (N.eqb (Npos p) (Npos q)) in change (N.eqb (Npos p) (Npos q)) with r
+         | |- context [N.eqb (Npos ?p) 0] => change (N.eqb (Npos p) 0) with false
+         | |- context [N.eqb 0 0] => change (N.eqb 0 0) with true
+         end;
+  cbv beta iota zeta.
 
 Section Reader.
   Context {A : Type}.
@@ -109,6 +179,203 @@ Section Reader.
       f_equal. f_equal. change (N.of_nat 8) with 8. lia.
   Qed.
 
+  (* ------------------------------------------------------------ script variables *)
+
+  Lemma le_decode_single c : le_decode [c] = c.
+  Proof. cbn [le_decode]. lia. Qed.
+
+  Lemma r_ptr_enc safe st (k : ptgt -> prog A) F t pos tail :
+    incl (ids_tgt t) F -> r_num st = nlen F -> nlen F < 2147483648 ->
+    run caf (r_ptr safe st k) (Good pos (enc_ptr F safe t ++ tail)) =
+    run caf (k (pend_tgt F t)) (Good (pos + 8) tail).
+  Proof.
+    intros Hin Hn HF. unfold r_ptr, enc_ptr.
+    rewrite run_record; [|destruct safe; vm_compute; reflexivity|apply nlen_le_encode].
+    destruct t as [x|]; cbn [pend_tgt].
+    - assert (Hx : In x F) by (apply Hin; now left).
+      pose proof (idx_in_range F x Hx) as R.
+      rewrite le_decode_encode by (change (256 ^ N.of_nat 4) with 4294967296; lia).
+      destruct (N.eqb_spec (idx F x) NULLP) as [E|_]; [unfold NULLP in E; lia|].
+      destruct (N.eqb_spec (idx F x) 0) as [E|_]; [lia|].
+      destruct (N.ltb_spec (r_num st) (idx F x)) as [L|_]; [lia|].
+      cbn [orb]. f_equal. f_equal. change (N.of_nat 4) with 4. lia.
+    - rewrite le_decode_encode by (vm_compute; reflexivity).
+      rewrite N.eqb_refl. f_equal. f_equal. change (N.of_nat 4) with 4. lia.
+  Qed.
+
+  Lemma r_ptrs_enc F st ts : forall (k : list ptgt -> prog A) pos tail,
+    incl (flat_map ids_tgt ts) F -> r_num st = nlen F -> nlen F < 2147483648 ->
+    run caf (r_ptrs (map (fun _ => None) ts) (nlen ts) st k) (Good pos (enc_ptrs F ts ++ tail)) =
+    run caf (k (map (pend_tgt F) ts)) (Good (pos + Z.of_N (8 * nlen ts)) tail).
+  Proof.
+    induction ts as [|t r IH]; intros k pos tail Hin Hn HF; cbn [map r_ptrs enc_ptrs flat_map].
+    - change (nlen (@nil (option N)) =? 0) with true. cbv iota. cbn [app]. f_equal. f_equal.
+      change (nlen (@nil (option N))) with 0. lia.
+    - rewrite nlen_cons. destruct (N.eqb_spec (1 + nlen r) 0) as [E|_]; [lia|].
+      rewrite <- app_assoc. rewrite r_ptr_enc; [|intros x Hx; apply Hin; apply in_or_app; now left|assumption|assumption].
+      replace (1 + nlen r - 1) with (nlen r) by lia.
+      rewrite IH; [|intros x Hx; apply Hin; apply in_or_app; now right|assumption|assumption].
+      f_equal. f_equal. lia.
+  Qed.
+
+  Lemma r_num32_enc (k : N -> prog A) v pos tail :
+    v < 4294967296 ->
+    run caf (r_num32 k) (Good pos (u32 v ++ tail)) = run caf (k v) (Good (pos + 8) tail).
+  Proof.
+    intro Hv. unfold r_num32, u32.
+    rewrite run_record; [|vm_compute; reflexivity|apply nlen_le_encode].
+    rewrite le_decode_encode by (change (256 ^ N.of_nat 4) with 4294967296; exact Hv).
+    f_equal. f_equal. change (N.of_nat 4) with 4. lia.
+  Qed.
+
+  Lemma r_position_enc F st id (k : rst -> prog A) pos tail :
+    In id F -> r_num st = nlen F -> nlen F < 2147483648 ->
+    run caf (r_position st id k) (Good pos (rec_bytes T_Position (le_encode 4 (idx F id)) ++ tail)) =
+    run caf (k (reg_ids F [id] st)) (Good (pos + 8) tail).
+  Proof.
+    intros Hin Hn HF. unfold r_position. pose proof (idx_in_range F id Hin) as R.
+    rewrite run_record; [|vm_compute; reflexivity|apply nlen_le_encode].
+    rewrite le_decode_encode by (change (256 ^ N.of_nat 4) with 4294967296; lia).
+    rewrite add_at_reg by assumption.
+    f_equal. f_equal. change (N.of_nat 4) with 4. lia.
+  Qed.
+
+  Lemma r_cstr_enc (k : option (list N) -> prog A) s pos tail :
+    (forall bs, s = Some bs -> nlen bs < 256 ^ 8) ->
+    run caf (r_cstr k) (Good pos (w_cstr s ++ tail)) =
+    run caf (k s) (Good (pos + Z.of_N (size_cstr s)) tail).
+  Proof.
+    intro Hs. unfold r_cstr. destruct s as [bs|]; cbn [w_cstr size_cstr].
+    - rewrite <- app_assoc. rewrite run_record; [|vm_compute; reflexivity|reflexivity].
+      rewrite le_decode_single. change (1 =? 0) with false. cbv iota.
+      rewrite r_str_enc by (now apply Hs). rewrite nlen_w_str. f_equal. f_equal. lia.
+    - rewrite run_record; [|vm_compute; reflexivity|reflexivity].
+      rewrite le_decode_single. change (0 =? 0) with true. cbv iota. f_equal; f_equal; lia.
+  Qed.
+
+  Lemma r_newref_enc (k : bool -> prog A) (b : bool) pos tail :
+    run caf (r_newref k) (Good pos (rec_bytes T_Boolean [if b then 1 else 0] ++ tail)) =
+    run caf (k b) (Good (pos + 5) tail).
+  Proof.
+    unfold r_newref. rewrite run_record; [|vm_compute; reflexivity|reflexivity].
+    destruct b; cbv iota; f_equal; f_equal; lia.
+  Qed.
+
+  Lemma r_raw12_enc (k : list N -> prog A) bs pos tail :
+    nlen bs = 12 ->
+    run caf (r_raw12 k) (Good pos (rec_bytes T_Raw bs ++ tail)) = run caf (k bs) (Good (pos + 16) tail).
+  Proof.
+    intro Hb. unfold r_raw12. rewrite run_record; [|vm_compute; reflexivity|exact Hb].
+    f_equal. f_equal. lia.
+  Qed.
+
+  Definition tok_ok (F : list N) (t : tok (option N)) : Prop :=
+    wf_body (t_body t) = true /\ incl (ids_tok t) F /\ size_body (t_body t) < 2147483648.
+
+  Lemma kids_pend F b : kids (pend_body F b) = kids b.
+  Proof. destruct b; reflexivity. Qed.
+
+  Lemma r_tok1_enc F st t (k : rst -> tok ptgt -> prog A) pos tail :
+    tok_ok F t -> r_num st = nlen F -> nlen F < 2147483648 ->
+    run caf (r_tok1 (shape_tok t) st k) (Good pos (enc_tok F t ++ tail)) =
+    run caf (k (reg_ids F (reg_tok t) st) (pend_tok F t))
+        (Good (pos + Z.of_N (13 + size_body (t_body t))) tail).
+  Proof.
+    intros (Hwf & Hin & Hsz) Hn HF.
+    assert (Hvid : In (t_vid t) F) by (apply Hin; now left).
+    assert (Hids : incl (ids_body (t_body t)) F) by (intros x Hx; apply Hin; now right).
+    unfold r_tok1, enc_tok, pend_tok, reg_tok, shape_tok. cbn [t_vid t_body].
+    rewrite <- !app_assoc.
+    rewrite r_position_enc by assumption.
+    rewrite run_record; [|vm_compute; reflexivity|reflexivity].
+    rewrite le_decode_single.
+    set (st1 := reg_ids F [t_vid t] st).
+    assert (Hn1 : r_num st1 = nlen F) by (unfold st1; now rewrite reg_ids_num).
+    destruct (t_body t) as [|bs|pk v|s|pk x|hid rc tl thr tli count|hid rc size|pid ts|hk [hid|]|bs] eqn:Eb;
+      cbn [vtype enc_tbody pend_body size_body ids_body wf_body lab_hid lab_targets] in *.
+    - eqb_lits. cbn [app]. f_equal. f_equal. lia.
+    - eqb_lits.
+      rewrite r_str_enc.
+      + rewrite nlen_w_str. f_equal. f_equal. lia.
+      + unfold size_str in Hsz. destruct bs; [vm_compute; reflexivity|]. change (256 ^ 8) with 18446744073709551616. lia.
+    - apply N.ltb_lt in Hwf.
+      destruct pk; cbn [vtype vp_tag vp_width] in *; eqb_lits;
+        (rewrite run_record; [|vm_compute; reflexivity|apply nlen_le_encode]);
+        rewrite le_decode_encode by exact Hwf; f_equal; f_equal; lia.
+    - eqb_lits.
+      rewrite r_cstr_enc.
+      + f_equal. f_equal. lia.
+      + intros bs0 ->. cbn [size_cstr] in Hsz. unfold size_str in Hsz.
+        destruct bs0; [vm_compute; reflexivity|]. change (256 ^ 8) with 18446744073709551616. lia.
+    - destruct pk; cbn [vtype vptr_safe] in *; eqb_lits;
+        (rewrite r_ptr_enc by assumption); f_equal; f_equal; lia.
+    - repeat match goal with Hx : (_ && _) = true |- _ => apply andb_true_iff in Hx; destruct Hx end.
+      repeat match goal with Hx : (_ <? _) = true |- _ => apply N.ltb_lt in Hx end.
+      eqb_lits. unfold enc_new. rewrite <- !app_assoc.
+      rewrite (r_newref_enc _ true).
+      rewrite r_position_enc; [|apply Hids; now left|assumption|assumption].
+      rewrite !r_num32_enc by assumption.
+      rewrite run_record; [|vm_compute; reflexivity|apply nlen_le_encode].
+      rewrite le_decode_encode by (change (256 ^ N.of_nat 2) with 65536; assumption).
+      assert (Hz : (tl =? 0) && (0 <? count) = false).
+      { destruct (N.eqb_spec tl 0) as [->|_]; [|reflexivity]. cbn [andb].
+        match goal with Hx : (0 <? 0) || (count =? 0) = true |- _ => cbn [orb] in Hx; change (0 <? 0) with false in Hx; cbn [orb] in Hx; apply N.eqb_eq in Hx; subst count end.
+        reflexivity. }
+      rewrite Hz. unfold st1. f_equal. f_equal. change (N.of_nat 2) with 2. lia.
+    - repeat match goal with Hx : (_ && _) = true |- _ => apply andb_true_iff in Hx; destruct Hx end.
+      repeat match goal with Hx : (_ <? _) = true |- _ => apply N.ltb_lt in Hx end.
+      eqb_lits. unfold enc_new. rewrite <- !app_assoc.
+      rewrite (r_newref_enc _ true).
+      rewrite r_position_enc; [|apply Hids; now left|assumption|assumption].
+      rewrite !r_num32_enc by assumption.
+      unfold st1. f_equal. f_equal. lia.
+    - eqb_lits. unfold enc_new. rewrite <- !app_assoc.
+      rewrite (r_newref_enc _ true).
+      rewrite r_position_enc; [|apply Hids; now left|assumption|assumption].
+      rewrite r_num32_enc by lia.
+      rewrite r_ptrs_enc; [|intros x Hx; apply Hids; now right|now rewrite reg_ids_num|assumption].
+      unfold st1. f_equal. f_equal. lia.
+    - destruct hk; cbn [vtype] in *; eqb_lits; rewrite <- !app_assoc;
+        rewrite (r_newref_enc _ false); (rewrite r_ptr_enc by assumption);
+        cbn [app]; f_equal; f_equal; lia.
+    - discriminate.
+    - apply andb_true_iff in Hwf as [_ Hl]. apply N.eqb_eq in Hl.
+      eqb_lits. rewrite <- !app_assoc.
+      rewrite !r_raw12_enc by exact Hl.
+      cbn [app]. f_equal. f_equal. rewrite Hl. lia.
+  Qed.
+
+  Lemma r_toks_enc F toks : forall labs2 pending pend' st (cont : rst -> list (tok ptgt) -> prog A) pos tail,
+    pend_after toks pending = Some pend' ->
+    Forall (tok_ok F) toks -> size_toks toks < 2147483648 -> r_num st = nlen F -> nlen F < 2147483648 ->
+    run caf (r_toks (map shape_tok toks ++ labs2) pending st cont) (Good pos (enc_toks F toks ++ tail)) =
+    run caf (r_toks labs2 pend' (reg_ids F (flat_map reg_tok toks) st)
+                    (fun st2 more => cont st2 (map (pend_tok F) toks ++ more)))
+        (Good (pos + Z.of_N (nlen (enc_toks F toks))) tail).
+  Proof.
+    induction toks as [|t r IH]; intros labs2 pending pend' st cont pos tail Hp Hok Hsz Hn HF;
+      cbn [map app enc_toks flat_map pend_after size_toks] in *.
+    - inversion Hp; subst. cbn [reg_ids fold_left]. f_equal. f_equal. change (nlen (@nil N)) with 0. lia.
+    - inversion Hok as [|? ? Ht Hr]; subst.
+      destruct (N.eqb_spec pending 0) as [E|E]; [discriminate|].
+      cbn [r_toks]. destruct (N.eqb_spec pending 0) as [E'|_]; [contradiction|].
+      rewrite <- app_assoc.
+      rewrite r_tok1_enc by assumption.
+      cbn [pend_tok t_body]. rewrite kids_pend.
+      rewrite (IH labs2 _ pend'); [|exact Hp|assumption|lia|now rewrite reg_ids_num|assumption].
+      rewrite reg_ids_app. f_equal. f_equal. rewrite nlen_app, nlen_enc_tok. lia.
+  Qed.
+
+  Lemma r_key_enc key (k : option (option (list N)) -> prog A) pos tail :
+    (forall bs, key = Some (Some bs) -> nlen bs < 256 ^ 8) ->
+    run caf (r_key (match key with None => None | Some _ => Some None end) k) (Good pos (w_key key ++ tail)) =
+    run caf (k key) (Good (pos + Z.of_N (size_key key)) tail).
+  Proof.
+    intro Hk. destruct key as [s|]; cbn [r_key w_key size_key].
+    - rewrite r_cstr_enc; [reflexivity|]. intros bs ->. now apply Hk.
+    - cbn [app]. f_equal. f_equal. lia.
+  Qed.
+
   (* ------------------------------------------------------------------- leaves *)
 
   Definition leaf_ok (F : list N) (l : leaf) : Prop :=
@@ -121,7 +388,21 @@ Section Reader.
         (Good (pos + Z.of_N (nlen (enc_leaf F l))) tail).
   Proof.
     intros (Hwf & Hin & Hsz) Hn HF. rewrite nlen_enc_leaf.
-    destruct l as [k v|bs|bs|s [t|]|id]; cbn [r_leaf shape_leaf enc_leaf reg_leaf pend_leaf size_leaf reg_ids fold_left].
+    destruct l as [k v|bs|bs|s [t|]|id|key toks]; cbn [r_leaf shape_leaf enc_leaf reg_leaf pend_leaf size_leaf reg_ids fold_left].
+    7:{ cbn [wf_leaf ids_leaf size_leaf] in *.
+        apply andb_true_iff in Hwf as [Hwf Hbal]. apply andb_true_iff in Hwf as [Hkey Hbodies].
+        rewrite <- app_assoc. rewrite r_key_enc.
+        2:{ intros bs ->. unfold size_key, size_cstr, size_str in Hsz. destruct bs; [vm_compute; reflexivity|].
+            change (256 ^ 8) with 18446744073709551616. lia. }
+        unfold balanced in Hbal. destruct (pend_after toks 1) as [[|p]|] eqn:Hp; try discriminate.
+        pose proof (r_toks_enc F toks [] 1 0 st (fun st' ts => cont st' (PVar key ts))) as R.
+        rewrite app_nil_r in R. rewrite R; [|exact Hp| |lia|assumption|assumption].
+        - cbn [r_toks]. change (0 =? 0) with true. cbv iota. rewrite app_nil_r.
+          f_equal. f_equal. rewrite nlen_enc_toks. lia.
+        - rewrite forallb_forall in Hbodies. apply Forall_forall. intros t Ht. split; [now apply Hbodies|split].
+          + intros x Hx. apply Hin. rewrite in_flat_map. eauto.
+          + clear - Ht Hsz. induction toks as [|a r IH]; [destruct Ht|]. cbn [size_toks] in Hsz.
+            destruct Ht as [->|Ht]; [lia|]. apply IH; try assumption; lia. }
     - rewrite run_record; [|apply ptag_small|apply nlen_le_encode].
       rewrite le_decode_encode.
       + f_equal. f_equal. lia.
